@@ -107,7 +107,9 @@ def build_translator():
 
 def run_translator():
     """Regenerate coq/Gen/*.v and the harness registry from the current /repo tree."""
-    rc, out, _ = sh([os.path.join(BIN, "qrb2coq"), "-repo", REPO, "-out", os.path.join(COQ, "Gen")], timeout=300)
+    # the source importer of go/types resolves imports relative to the working directory's module
+    rc, out, _ = sh([os.path.join(BIN, "qrb2coq"), "-repo", REPO, "-out", os.path.join(COQ, "Gen")],
+                    cwd=os.path.join(ROOT, "go"), env=GOENV, timeout=300)
     return rc, out
 
 
